@@ -1,15 +1,16 @@
 (* C06 -- Unit conversions follow molar mass, density and specific activity.
-   Only statements, each closed by [exact]; proofs live in UnitsThm.v / UnitsGenOK.v. *)
-Require Import Base Units UnitsThm GenBase UnitsGen UnitsGenOK.
+   Only statements, each closed by [exact]; proofs live in UnitsThm.v / UnitsGenOK.v / UnitsSymOK.v;
+   gen/UnitsTie.v (written on every run) names the extraction(s) of the source that tie_run stands for. *)
+Require Import Base Units UnitsThm GenBase UnitsTie.
 
 (* tie: what the source says now equals the model *)
-Theorem C06_source_equals_model : forall s q fu tu, optQeq (gen_run s q fu tu) (conv s q fu tu).
-Proof. exact gen_conv_eq_model. Qed.
+Theorem C06_source_equals_model : forall s q fu tu, optQeq (tie_run s q fu tu) (conv s q fu tu).
+Proof. exact tie_run_eq_model. Qed.
 Print Assumptions C06_source_equals_model.
 
-Theorem C06_prefix_table : map fst gen_prefix_table = map pname all_prefixes /\
-  forall p, exists v, assoc (pname p) gen_prefix_table = Some v /\ v == pmult p.
-Proof. exact gen_prefix_table_eq_model. Qed.
+Theorem C06_prefix_table : map fst tie_prefix_table = map pname all_prefixes /\
+  forall p, exists v, assoc (pname p) tie_prefix_table = Some v /\ v == pmult p.
+Proof. exact tie_prefix_table_eq_model. Qed.
 Print Assumptions C06_prefix_table.
 
 (* exactly the factor implied by molecular weight, density and specific activity, any prefixes *)
